@@ -3,6 +3,20 @@ execution (the C implementation realises symbolic bytes).  Under replay the real
 is used, never these classes."""
 
 
+def _concrete(n, hi):
+    """A symbolic int n >= 0 is turned into a concrete one by a forked linear search over 0..hi;
+    values above hi are canonicalised to hi + 1 (callers only use this where every value above
+    hi behaves alike: reading / positioning beyond the end of the data)."""
+    if type(n) is int:
+        return n if n <= hi else hi + 1
+    if n > hi:
+        return hi + 1
+    for c in range(hi + 1):
+        if n == c:
+            return c
+    return hi + 1
+
+
 class PyFile:
     """Seekable binary file over a Python list of ints (elements may be symbolic)."""
 
@@ -29,6 +43,8 @@ class PyFile:
     def read(self, n=-1):
         if n is None or n < 0:
             n = len(self.buf) - self.pos
+        if type(n) is not int:
+            n = _concrete(n, max(0, len(self.buf) - self.pos))
         out = self.buf[self.pos : self.pos + n]
         self.pos += len(out)
         return bytes(out)
@@ -41,6 +57,10 @@ class PyFile:
             pos = self.pos + pos
         elif whence == 2:
             pos = len(self.buf) + pos
+        if type(pos) is not int:
+            if pos < 0:
+                raise ValueError("negative seek position")
+            pos = _concrete(pos, len(self.buf))
         self.pos = pos
         return pos
 
